@@ -184,6 +184,21 @@ pub mod verif_hooks {
                 with_channel,
             )
         }
+        #[cfg(feature = "sync")]
+        /// sync service discovery ingest of a response packet while the discovery channel's receiver is gone
+        pub fn add_response_closed_channel(&mut self, packet: Packet, service_name: &Name<'_>, full_name: &Name<'_>) {
+            crate::sync_discovery::verif_add_response_closed_channel(packet, service_name, full_name, &mut self.0)
+        }
+        #[cfg(feature = "async-tokio")]
+        /// async (tokio) service discovery ingest of a response packet while the discovery channel's receiver is gone
+        pub async fn add_response_closed_channel_async(
+            &mut self,
+            packet: Packet<'_>,
+            service_name: &Name<'_>,
+            full_name: &Name<'_>,
+        ) {
+            crate::async_discovery::verif_add_response_closed_channel(packet, service_name, full_name, &mut self.0).await
+        }
         #[cfg(feature = "async-tokio")]
         /// async (tokio) service discovery ingest of a response packet
         pub async fn add_response_async(
